@@ -60,6 +60,7 @@ var c10Menu = func() []c10Member {
 		`"asset":{"version":"3.0"}`, `"asset":{"version":2.0}`, `"asset":"2.0"`, `"asset":{"v":{"version":"2.0"}}`,
 		`"type":"feature"`, `"type":1`, `"type":["Feature"]`, `"Type":"Feature"`, `"types":"Feature"`, `"type":"x"`, `"type":{"type":"Feature"}`,
 		`"accessors":[1]`, `"n":[[]]`, `"o":{"p":{"q":[{}]}}`,
+		`"kind":"type"`, `"words":["type","log","asset","version"]`, `"source":"log"`,
 		`"e2":[ ]`, `"i2":{ }`, "\"e3\":[\r\n\t]", `"log":[ ]`, `"asset":[ ]`,
 	} {
 		m = append(m, c10Member{d, ""})
